@@ -231,7 +231,16 @@ fn remove_anonymous_from_statement(
             }
             Ok((build_log_call(meta, args), Vec::new()))
         }
-        Statement::Assert { meta, arg } => Ok((build_assert(meta, arg), Vec::new())),
+        Statement::Assert { meta, arg } => {
+            if arg.contains_anonymous_component(None) {
+                Err(AnonymousComponentError::boxed_report(
+                    &meta,
+                    "An anonymous component cannot be used inside an assert statement.",
+                ))
+            } else {
+                Ok((build_assert(meta, arg), Vec::new()))
+            }
+        }
         Statement::Return { meta, value: arg } => {
             if arg.contains_anonymous_component(None) {
                 Err(AnonymousComponentError::boxed_report(
